@@ -119,12 +119,12 @@ CHECKS = {
             "Trusted: Lean kernel, object identity model of ScratchSlot (re-checked each run), AVM spec for the marker programs.",
             "DESIGN.md Part II C10"),
     "C12": ("proof",
-            "Lean 4 proof: constants_sound / index_in_block / nonconstant_ops_preserved on a model of createConstantBlocks (all op lists), run-equality theorem for pairs accepted by a decidable checker; exact-text correspondence with the real pass; site-by-site decoding and differential execution of both real TEAL texts",
+            "Lean 4 proof: constants_sound / index_in_block / index_fits / nonconstant_ops_preserved on a model of createConstantBlocks (all op lists), run-equality theorem for pairs accepted by a decidable checker; exact-text correspondence with the real pass; site-by-site decoding and differential execution of both real TEAL texts",
             "Every rewritten constant-load site denotes the original value and every block index points at the entry holding it, for all op "
             "lists; the model equals the real createConstantBlocks textually on generated lists and whole programs; pairs of real TEAL texts "
             "(assembleConstants off/on) are accepted by `checkAssembled`, whose theorem gives equal runs on every context.",
             "Trusted: Lean kernel, transcription of constants.py/util.py and the CPython codecs (tied by correspondence), AVM grammar and "
-            "semantics; SHA-512/256 uninterpreted. One known finding (index > 255 beyond 256 distinct repeated constants).",
+            "semantics; SHA-512/256 uninterpreted. One defect (index > 255 beyond 256 distinct repeated constants) was repaired with a fix: commit; index_fits is now a full theorem.",
             "DESIGN.md Part II C12"),
     "C16": ("proof",
             "Lean 4 proof: wideRatio_exact / wideRatio_never_wraps for all factor lists and all uint64 values against the shared opcode semantics; op-for-op correspondence with the real WideRatio emission; execution of the real TEAL on boundary factors against big-integer arithmetic",
@@ -163,8 +163,8 @@ CHECKS = {
             "model of the emitters is compared with the real constructors on all single bytes, byte pairs and random texts, and the real "
             "emitted lines are decoded by the grammar and compared with Python's own decoding.",
             "Trusted: TEAL literal grammar (Avm/Syntax.lean), RFC 4648 reading, byte-level model of CPython's unicode-escape (validated "
-            "exhaustively on 1- and 2-byte inputs); SHA-512/256 uninterpreted (selectors from algosdk). Two known findings (Addr checksum, "
-            "MethodSignature escaping).",
+            "exhaustively on 1- and 2-byte inputs); SHA-512/256 uninterpreted (selectors from algosdk). One known finding (Addr checksum); "
+            "MethodSignature escaping was repaired with a fix: commit (methodsig_correct is a full theorem).",
             "DESIGN.md Part II C13"),
     "C17": ("proof",
             "Lean 4 proof: soundness and completeness of the model of validateSlots w.r.t. syntactic paths (all graphs, termination proved), equivalence with an independent dataflow; correspondence on random block graphs and on programs with an independently computed read-before-write verdict",
